@@ -5,7 +5,6 @@
    model is tied to the code by harness/c01.py (scenario correspondence against
    an independent reference accessory).  Partial: strength of the primitives and
    their byte encodings are outside the model. *)
-From Coq Require Import String Ascii.
 From Coq Require Import List NArith Arith Bool Lia.
 From AHK Require Import Lib.Res Lib.ByteStr Model.Tlv Model.Sym Model.Verify Proofs.SymFacts Proofs.VerifyFacts.
 Import ListNotations.
